@@ -15,7 +15,7 @@ import (
 
 // H_C01_MetaLeaseSet: ReadMetaLeaseSet -> Bytes on the MetaLeaseSet shape grid.
 //
-//verif:props C01 C03
+//verif:props C01 C03 C04
 //verif:witness accepted
 func H_C01_MetaLeaseSet() {
 	shapes := metaShapes()
@@ -39,7 +39,7 @@ func H_C01_MetaLeaseSet() {
 
 // H_C01_EncryptedLeaseSet: ReadEncryptedLeaseSet -> Bytes on the shape grid.
 //
-//verif:props C01 C03
+//verif:props C01 C03 C04
 //verif:witness accepted
 func H_C01_EncryptedLeaseSet() {
 	shapes := encShapes()
@@ -63,7 +63,7 @@ func H_C01_EncryptedLeaseSet() {
 
 // H_C01_LeaseSet: ReadLeaseSet -> Bytes on the legacy LeaseSet shape grid (no remainder is returned; the consumed extent is len(Bytes())).
 //
-//verif:props C01
+//verif:props C01 C04
 //verif:witness accepted
 func H_C01_LeaseSet() {
 	shapes := lsShapes()
@@ -89,7 +89,7 @@ func H_C01_LeaseSet() {
 
 // H_C01_RouterInfo: ReadRouterInfo -> Bytes on the RouterInfo shape grid (address and options mappings are free regions).
 //
-//verif:props C01 C03
+//verif:props C01 C03 C04
 //verif:witness accepted
 func H_C01_RouterInfo() {
 	shapes := riShapes()
@@ -113,7 +113,7 @@ func H_C01_RouterInfo() {
 
 // H_C01_RouterAddress: ReadRouterAddress -> Bytes, free-form N in 12..Nmax (transport string length and options mapping free).
 //
-//verif:props C01 C03
+//verif:props C01 C03 C04
 //verif:witness accepted
 func H_C01_RouterAddress() {
 	max := 18
@@ -135,7 +135,7 @@ func H_C01_RouterAddress() {
 
 // H_C01_Leases: ReadLease / ReadLease2 and pointer variants, N = size-1..size+2.
 //
-//verif:props C01 C03 C19
+//verif:props C01 C03 C19 C04
 //verif:witness accepted
 func H_C01_Leases() {
 	if nd.Bool() {
@@ -171,7 +171,7 @@ func H_C01_Leases() {
 
 // H_C01_Signature: ReadSignature with a free int type code; N = class size - 1 .. + 2 for every size class.
 //
-//verif:props C01 C03
+//verif:props C01 C03 C04
 //verif:witness accepted
 //verif:fanout 600
 func H_C01_Signature() {
@@ -198,7 +198,7 @@ func H_C01_Signature() {
 
 // H_C01_OfflineSignature: ReadOfflineSignature with free transient and destination type codes.
 //
-//verif:props C01 C03
+//verif:props C01 C03 C04
 //verif:witness accepted
 func H_C01_OfflineSignature() {
 	types := []int{0, 1, 2, 3, 4, 7, 8, 11}
